@@ -45,7 +45,10 @@ RULE = (
     "name, every referenced name attrs injects itself); a catalogue first (every name set x every helper kind x poison "
     "mode, every class flag x api, the listed hazards), then seeded random fill (quick 1900, thorough 150000 cases, one in "
     "six of kind hist/conc). "
-    "hist: 1-6 definitions over qualnames C, C-1, C-2, C-1-1, D x 11 bodies (two with identical source, one whose source "
+    "every herm class may carry a functools.cached_property and an own or inherited __getattr__ (slotted classes then get "
+    "the generated __getattr__ script: its loads, source entry and missing-attribute lookups are observed like the other "
+    "methods'). hist: 1-6 definitions -- a third of them twins (same qualname and body) of an earlier one, a quarter refused "
+    "AFTER code generation by an inherited __attrs_init_subclass__, a base __init_subclass__ or a metaclass -- over qualnames C, C-1, C-2, C-1-1, D x 11 bodies (two with identical source, one whose source "
     "embeds the qualname) x pre-seeded foreign entries on colliding filenames; conc: 2-4 threads x bodies x schedules "
     "(exhaustive over 2 threads x <=4 operations, random above). non-trivial = herm: at least one field-derived helper name "
     "is loaded; hist/conc: at least two definitions contend for one filename. distinct = distinct JSON case"
@@ -69,11 +72,13 @@ LEVEL_TEXT = (
     "injects resolves to attrs's object; C17_pinned_merge_order_loses is the decided counterexample for the old merge order), "
     "C17_names_disjoint (for ALL strings: every naming function injective; the six schemes factory/validator/attribute/"
     "converter/key/repr pairwise disjoint; no scheme yields a fixed helper name; eq/hash and repr agree on their names), "
-    "C17_no_helper_clash, C17_table_is_intended (for every class, field naming and module namespace every global load of "
+    "C17_no_helper_clash, C17_getattr_script_hermetic (the cached-property __getattr__ script of slotted classes never sees "
+    "the module namespace; C17_getattr_module_first_loses is the decided counterexample), C17_table_is_intended (for every class, field naming and module namespace every global load of "
     "every generated method finds the object its own script bound -- unconditional), C17_module_irrelevant, "
     "C17_model_meets_spec (hypothesis: not K17c), witness C17_K17c_witness. Part B: C17_unique_entry_concurrent (invariant "
     "over ALL interleavings of atomic setdefault steps, any number of threads, any pre-existing cache), C17_source_is_code, "
-    "C17_loop_terminates (candidate filenames are pairwise different, pigeonhole), C17_unique_entry (sequential histories "
+    "C17_later_definitions_keep_entries (further definitions, refused ones included, never disturb an existing class's "
+    "entry), C17_loop_terminates (candidate filenames are pairwise different, pigeonhole), C17_unique_entry (sequential histories "
     "of any length: every definition gets a code object whose filename maps to its own script), "
     "C17_nonatomic_counterexample (decided schedule for look-then-store), C17_cache_model_meets_spec. Naming affixes, "
     "fixed helper names and merge orders are read from the current source (T1), so these theorems are re-checked against "
@@ -85,8 +90,7 @@ LEVEL_TEXT = (
     "recompiled against the running code objects (line tables included), classes built from user objects shared between "
     "fields and with earlier classes vs twins built from fresh objects, sequential histories and forced thread "
     "interleavings through an instrumented linecache.cache. LOAD_GLOBAL's builtins fallback, inspect.getsource and the "
-    "linecache consumers are CPython's: observed, not proved. The cached-property __getattr__ script of slotted classes "
-    "(own isolated globals without the module dict) is not covered. Known finding: K17c (an __init__ parameter named "
+    "linecache consumers are CPython's: observed, not proved. Known finding: K17c (an __init__ parameter named "
     "like a global or local helper the body uses)."
 )
 
@@ -160,6 +164,11 @@ def normalise(case):
         cfg.pop("excRoot", None)
     if not c["frozen"]:
         cfg.pop("frozenVia", None)
+    # a generated __getattr__ exists only on SLOTTED classes whose body has a cached_property; make_class has no body
+    if cfg["api"] == "make_class":
+        case["cachedProp"] = False
+    if cfg["api"] == "make_class":
+        case["ownGetattr"] = False
     if not (c["genHash"] and c["genInit"]):
         c["cacheHash"] = False
     if not c["preInit"]:
@@ -249,13 +258,18 @@ def rand_share(rng, p=0.4):
 
 
 def herm_case(rng, names, cls=None, poison=None, api=None, fields=None, share="rand", cfg_extra=None):
-    case = {"kind": "herm", "cls": cls or rand_cls(rng),
+    case = {"kind": "herm", "cachedProp": rng.random() < 0.55, "ownGetattr": rng.random() < 0.25,
+            "cls": cls or rand_cls(rng),
             "fields": fields if fields is not None else [rand_field(rng, n) for n in names],
             "poison": poison or rand_poison(rng),
             "cfg": {"api": api or rng.choice(APIS), "order": rng.random() < 0.4,
                     "share": rand_share(rng) if share == "rand" else share,
-                    "excRoot": rng.choice(EXC_ROOTS), "frozenVia": rng.choice(["arg", "arg", "base"])}}
+                    "excRoot": rng.choice(EXC_ROOTS), "frozenVia": rng.choice(["arg", "arg", "base"]),
+                    "baseGetattr": rng.random() < 0.3}}
     if cfg_extra:
+        for k in ("cachedProp", "ownGetattr"):
+            if k in cfg_extra:
+                case[k] = cfg_extra.pop(k)
         case["cfg"].update(cfg_extra)
     return normalise(case)
 
@@ -300,6 +314,15 @@ def catalogue(rng):
                                                     genInit=not (frozen and api == "attr.s")),
                                 poison="all", api=api, fields=fs, share=None,
                                 cfg_extra={"excRoot": root, "frozenVia": "base" if frozen and api != "make_class" else "arg"})
+    for api in ("attr.s", "define"):
+        for own in (False, True):
+            for basega in (False, True):
+                for shape in ({}, {"frozen": True, "genHash": True, "cacheHash": True}, {"isExc": True}):
+                    for poison in ("all", "helpersOnly"):
+                        fs = [mk_field("x", validator=True), mk_field("y", dflt="factory", repr="custom")]
+                        yield herm_case(rng, None, cls=dict(CLS0, slots=True, **shape), poison=poison, api=api, fields=fs,
+                                        share=None, cfg_extra={"cachedProp": True, "ownGetattr": own, "baseGetattr": basega,
+                                                               "excRoot": "Exception", "frozenVia": "arg"})
     for via in ("arg", "base"):
         for api in ("attr.s", "define", "make_class"):
             for slots in (False, True):
@@ -374,9 +397,25 @@ def cache_case(kind, defs, pre, sched, cfg):
             "pre": pre, "sched": sched, "cfg": cfg}
 
 
+FAIL_HOW = ["subclass_hook", "init_subclass", "meta"]
+
+
 def rand_defs(rng, n, contend=True):
+    """definitions contending for few filenames; a good part are twins (same qualname AND body) of an earlier
+    definition, and some are refused after their methods were generated"""
     quals = ["C"] * 4 + ["C-1", "C-1", "C-2", "C-1-1", "D"] if contend else CC.QUALS
-    return [{"qual": rng.choice(quals), "body": rng.randrange(len(CC.BODIES))} for _ in range(n)]
+    out = []
+    for _ in range(n):
+        if out and rng.random() < 0.35:
+            d = dict(rng.choice(out))
+            d.pop("fails", None)
+            d.pop("failHow", None)
+        else:
+            d = {"qual": rng.choice(quals), "body": rng.randrange(len(CC.BODIES))}
+        if rng.random() < 0.25:
+            d["fails"], d["failHow"] = True, rng.choice(FAIL_HOW)
+        out.append(d)
+    return out
 
 
 def rand_pre(rng):
@@ -399,6 +438,17 @@ def gen_cache_fixed():
                                   {"qual": "C-1", "body": 4}, {"qual": "C", "body": 5}, {"qual": "C-1-1", "body": 6}], [], [], cfg)
         yield cache_case("hist", [{"qual": "C", "body": 8}, {"qual": "C", "body": 8}, {"qual": "C-1", "body": 8},
                                   {"qual": "C", "body": 0}], [["C", [0, 900]], ["C", [2, 901]]], [], cfg)
+    # refused twins: a same-qualname, same-body definition is refused after code generation (each mechanism), before,
+    # between and after successful definitions; every earlier class must keep its entries
+    for cfg in cfgs + [{"api": "class", "slots": True}]:
+        for how in FAIL_HOW:
+            R = {"fails": True, "failHow": how}
+            yield cache_case("hist", [{"qual": "C", "body": 0}, dict(R, qual="C", body=0), {"qual": "C", "body": 1},
+                                      dict(R, qual="C", body=1), dict(R, qual="C", body=0), {"qual": "C", "body": 0}], [], [], cfg)
+            yield cache_case("hist", [dict(R, qual="C", body=2), {"qual": "C", "body": 3}, dict(R, qual="C", body=8),
+                                      {"qual": "C-1", "body": 8}, dict(R, qual="C-1", body=8)], [["C", [1, 900]]], [], cfg)
+            yield cache_case("conc", [{"qual": "C", "body": 0}, dict(R, qual="C", body=0), dict(R, qual="C", body=1)], [],
+                             [1, 0, 2, 1, 0], cfg)
     # two threads, every pair of bodies from a small set, every schedule of up to 4 operations
     for b0, b1 in itertools.product([0, 1, 2, 3], repeat=2):
         for k in range(0, 5):
@@ -422,8 +472,10 @@ def gen_cases(tier, rng):
     yield from catalogue(rng)
     fixed = list(gen_cache_fixed())
     if tier == "quick":
-        rng.shuffle(fixed)
-        fixed = fixed[:120]
+        keep = [c for c in fixed if any(d.get("fails") for d in c["defs"])]
+        rest = [c for c in fixed if not any(d.get("fails") for d in c["defs"])]
+        rng.shuffle(rest)
+        fixed = keep + rest[:100]
     yield from fixed
     a, b = gen_herm_random(rng), gen_cache_random(rng)
     # the runner looks at the clock only between batches of 4000 cases: the streams are bounded by count
@@ -452,7 +504,7 @@ def observe_herm(case):
             raise AssertionError(f"generator and attrs disagree about names/aliases: {actual}")
         loads = clean.loads()
         load_names = {n for _, n in loads}
-        g = next(iter(clean.functions().values())).__globals__ if clean.functions() else {}
+        g = set(clean.globals_for("init")) | set(clean.globals_for("getattr"))
         mode = case["poison"]
         if mode == "none":
             poison = []
@@ -564,6 +616,8 @@ def dist(case, obs):
                 ("fac", f["dflt"] in ("factory", "factorySelf")), ("conv", f["conv"] != "none"), ("val", f["validator"]),
                 ("key", f["eqKey"]), ("repr", f["repr"] == "custom")) if on})) or "-",
             "explicit_alias": any(f.get("explicitAlias") for f in fs),
+            "getattr_script": ("cp" + ("+own" if case.get("ownGetattr") else "") + ("+base" if case["cfg"].get("baseGetattr") else ""))
+                              if case.get("cachedProp") else "-",
             "exc_root": case["cfg"].get("excRoot", "-"), "frozen_via": case["cfg"].get("frozenVia", "-"),
             "share": ("g%d:%s" % (case["cfg"]["share"]["groups"], "+".join(case["cfg"]["share"]["prior"]) or "within")
                       if case["cfg"].get("share") else "-"),
@@ -573,6 +627,9 @@ def dist(case, obs):
             "table_size": min(len(obs.get("table", [])), 30) // 5 * 5 if isinstance(obs, dict) else "?",
         }
     return {"kind": case["kind"], "n_defs": len(case["defs"]), "n_pre": len(case["pre"]),
+            "refused": sum(1 for d in case["defs"] if d.get("fails")),
+            "refused_twin": sum(1 for i, d in enumerate(case["defs"]) if d.get("fails") and any(
+                e["qual"] == d["qual"] and e["script"] == d["script"] and not e.get("fails") for e in case["defs"][:i])),
             "sched_len": len(case["sched"]), "realised": obs.get("realised") if isinstance(obs, dict) else "?",
             "distinct_files": len(set(obs.get("files", []))) if isinstance(obs, dict) else "?"}
 
@@ -592,6 +649,11 @@ def shrink(case):
                                             if ":" in case["cfg"]["excRoot"] else "Exception")))
         if case["cfg"].get("frozenVia") == "base":
             yield _copy(dict(case, cfg=dict(case["cfg"], frozenVia="arg")))
+        for k in ("cachedProp", "ownGetattr"):
+            if case.get(k):
+                yield _copy(dict(case, **{k: False}))
+        if case["cfg"].get("baseGetattr"):
+            yield _copy(dict(case, cfg=dict(case["cfg"], baseGetattr=False)))
         for i, f in enumerate(fs):
             for k, v in FIELD0.items():
                 if f[k] != v:
